@@ -5,7 +5,7 @@ VARIABLE l
 IsEvent(e) == l <= Len(Rec) /\ Rec[l].ev = e /\ l' = l + 1
 TraceInit == l = 1
 EvReset == IsEvent("Reset")
-EvFClean == IsEvent("FClean") /\ CleanOk(Rec[l].notable)
+EvFClean == IsEvent("FClean") /\ CleanOk(Rec[l].notable, Rec[l].sink_writes, Rec[l].sink_flushes)
 EvFRun == IsEvent("FRun") /\ RunOk(Rec[l].kind, Rec[l].fired, Rec[l].notable)
 TraceNext == EvReset \/ EvFClean \/ EvFRun
 TraceSpec == TraceInit /\ [][TraceNext]_l
